@@ -125,22 +125,7 @@ func runC09(c *Ctx) {
 			c.obHolds("501 cancel", site, `(*Conn).readLine(param0)#0 == "*"`)
 		}
 	}
-	if f := c.A.Func("decodeSASLResponse"); f != nil {
-		allInstrs(f, func(in ssa.Instruction) {
-			r, ok := in.(*ssa.Return)
-			if !ok || len(r.Results) != 2 {
-				return
-			}
-			d0, d1 := describe(r.Results[0]), describe(r.Results[1])
-			ff := c.F.Analyze(f)
-			if ff.At(in)[`param0 == "="`] {
-				R.Ob(c.siteKey(in, "'=' is the empty response"), c.P.InstrPos(in), strings.HasPrefix(d0, "slice(alloc:slicelit") && d1 == "nil" && emptyArrayAlloc(r.Results[0]), "'=' decodes to "+d0+", "+d1)
-			} else {
-				want := "(*base64.Encoding).DecodeString(StdEncoding,param0)"
-				R.Ob(c.siteKey(in, "base64 decode"), c.P.InstrPos(in), d0 == want+"#0" && d1 == want+"#1", "response decoded by "+d0+" / "+d1)
-			}
-		})
-	}
+	ruleSASLDecode(c)
 
 	R.Rule("R-cauth-flow", "E4 value flow", "Client.Auth encodes the mechanism's octets and decodes challenges with base64.StdEncoding; Next receives the decoded challenge; the first command is AUTH <mech> [<initial>]", 4)
 	if f := c.A.Func("(*Client).Auth"); f != nil {
@@ -288,4 +273,27 @@ func ruleAuthAllowedDef(c *Ctx) {
 		R.Ob("(*Conn).TLSConnectionState/ok iff conn is *tls.Conn", c.P.Pos(f.Pos()), ok, "TLS state no longer derived from a *tls.Conn assertion on the live connection")
 	}
 
+}
+
+// ruleSASLDecode (C09 R-auth-octets, C04): "=" is the zero-length response ([]byte{}, not nil — nil makes the
+// mechanism issue another challenge and the next command line is then consumed as SASL data), everything else is
+// the base64 decoding of the argument.
+func ruleSASLDecode(c *Ctx) {
+	R := c.R
+	if f := c.A.Func("decodeSASLResponse"); f != nil {
+		allInstrs(f, func(in ssa.Instruction) {
+			r, ok := in.(*ssa.Return)
+			if !ok || len(r.Results) != 2 {
+				return
+			}
+			d0, d1 := describe(r.Results[0]), describe(r.Results[1])
+			ff := c.F.Analyze(f)
+			if ff.At(in)[`param0 == "="`] {
+				R.Ob(c.siteKey(in, "'=' is the empty response"), c.P.InstrPos(in), strings.HasPrefix(d0, "slice(alloc:slicelit") && d1 == "nil" && emptyArrayAlloc(r.Results[0]), "'=' decodes to "+d0+", "+d1)
+			} else {
+				want := "(*base64.Encoding).DecodeString(StdEncoding,param0)"
+				R.Ob(c.siteKey(in, "base64 decode"), c.P.InstrPos(in), d0 == want+"#0" && d1 == want+"#1", "response decoded by "+d0+" / "+d1)
+			}
+		})
+	}
 }
